@@ -275,6 +275,11 @@ class Layouts:
             return [Opaque(f"loop:{t[1]}", Lin(0, {("len", f"loop:{t[1]}"): 1}))]
         if k == "attr":
             return [Opaque(f"attr:{show(t)}", Lin(0, {("len", show(t)): 1}))]
+        if k == "sub" and is_const(strip(t[1])) and isinstance(strip(t[1])[1], (tuple, list)) and strip(t[1])[1] \
+                and all(isinstance(x, bytes) for x in strip(t[1])[1]) and len({len(x) for x in strip(t[1])[1]}) == 1:
+            # TABLE[i] for a table of equally long byte strings: that many bytes, each a function of i
+            n = len(strip(t[1])[1][0])
+            return [Byte(("sub", t, ("const", j))) for j in range(n)]
         if k == "item":
             return [Opaque(f"item:{show(t)[:40]}", Lin(0, {("len", show(t)[:40]): 1}))]
         self._unknown(t)
